@@ -164,6 +164,11 @@ func authnSessionWithPAR(
 		return nil, err
 	}
 
+	// Continue with a copy of the pushed session, so the stored one, which may
+	// be shared with the storage, is only changed when the session is saved.
+	sessionCopy := *session
+	session = &sessionCopy
+
 	// For FAPI, only the parameters sent during PAR are considered.
 	if ctx.Profile.IsFAPI() {
 		return session, nil
